@@ -628,3 +628,107 @@ def eval_c08(g, h, cx, res, out):
             last = d[2]
 
 EVALS.update({'C05': eval_c05, 'C04p': eval_c04_prio, 'C08': eval_c08})
+
+# ---------------------------------------------------------------- C15 (partial): declaration order does not change the generated parser's behaviour
+def named_walk(h, w):
+    if w[0] == 'T': return ('T', w[1], w[4])
+    return ('R', h.rule_enum[w[1]], [named_walk(h, k) for k in w[4]])
+
+def named_log(h, log):
+    out = []
+    for e in log:
+        if e[0] in (1, 2): out.append((e[0], h.rule_names[e[1]], e[2], e[3]))
+        elif e[0] == 3: out.append((3, h.acts[e[1]], e[3]))
+        elif e[0] == 4: out.append((4, h.preds[e[7]], e[1], e[2], e[5], e[6]))
+    return out
+
+def c15_job(args):
+    g, prop, N, opts = args
+    t0 = time.time()
+    out = dict(name=g.name, family=g.meta.get('family'), accepted=False, reason=None, paths=0, violations=[], inconclusive=[],
+               validated=0, mismatches=[], samples=[], wall=0.0, states=0, forks=0, text=g.text(),
+               stats=dict(explored_paths=0, reused_paths=0, steps=0, queries=0, solver_time=0.0, fns=set(), models=set()),
+               prop_queries=0, prop_time=0.0, comparisons=0, permutations=0, identical_outputs=0, extra_forks=0)
+    try:
+        h, err = harness.make_harness(g.text())
+        if h is None:
+            out['reason'] = err[0] + ': ' + (err[1] or '').strip().split('\n')[0][:200]; return out
+        if not gram.productive_rules(g) >= set(g.rules_dict()):
+            out['reason'] = 'excluded: unproductive rule'; return out
+        nd = len(g.decls())
+        if nd < 3: out['reason'] = 'fewer than 3 declarations'; return out
+        out['accepted'] = True
+        pp = run.ParserProgram(h)
+        rnd = random.Random(opts.get('seed', 0) * 31 + len(g.text()))
+        perms = []
+        rev = list(range(nd))[::-1]
+        perms.append(rev)
+        while len(perms) < opts.get('perms', 3):
+            p = list(range(nd)); rnd.shuffle(p)
+            if p != list(range(nd)) and p not in perms: perms.append(p)
+        gen0 = open(os.path.join(h.dir, 'generated.rs')).read()
+        for perm in perms:
+            h2, err = harness.make_harness(g.text(perm))
+            out['permutations'] += 1
+            if h2 is None:
+                v = Violation('C15', 'permutation-rejected', g, type('R', (), dict(entry='parse', n=0, witness=[], script=''))(), f'declaration order {perm} is rejected or does not compile: {err[0]} {(err[1] or "")[:200]}')
+                v.confirmed = True; v.gtext = g.text(perm); out['violations'].append(v.asdict()); continue
+            if h2.tokens != h.tokens or h2.rule_enum != h.rule_enum:
+                out['inconclusive'].append(f'{g.name}: token/rule enumeration differs under permutation {perm}'); continue
+            if open(os.path.join(h2.dir, 'generated.rs')).read() == gen0:
+                out['identical_outputs'] += 1; continue
+            pp2 = run.ParserProgram(h2)
+            entries = ['parse'] + ['parse_' + p for p in h.parts]
+            for entry in entries:
+                for n in range(N + 1):
+                    results, st, hit = cached_explore(pp, entry, n, out['stats'])
+                    out['paths'] += len(results)
+                    cx = PathCtx(g, h, n)
+                    solver = run.Solver()
+                    tvars = [z3.Int(f't{i}') for i in range(n)]
+                    for t in tvars: solver.add_base(z3.And(t >= h.first_tok, t < pp.NTOK))
+                    for r1 in results:
+                        pc = cx.pc(r1)
+                        work = [[]]
+                        while work:
+                            dec = work.pop()
+                            r2m, r2 = run.run_path(pp2, solver, tvars, entry, n, dec, extra_pc=pc)
+                            work.extend(r2m.pending); out['extra_forks'] += len(r2m.pending)
+                            out['stats']['steps'] += r2m.steps; out['stats']['explored_paths'] += 1
+                            out['stats']['fns'] |= r2m.fn_used; out['stats']['models'] |= r2m.models_used
+                            out['comparisons'] += 1
+                            diff = None
+                            if (r1.status, r1.walk_err is None) != (r2.status, r2.walk_err is None): diff = f'status {r1.status}/{r1.walk_err} vs {r2.status}/{r2.walk_err}'
+                            elif r1.status == 'ok' and r1.walk_err is None:
+                                if named_walk(h, r1.walk) != named_walk(h2, r2.walk): diff = f'trees differ: {named_walk(h, r1.walk)} vs {named_walk(h2, r2.walk)}'
+                                elif r1.diags != r2.diags: diff = f'diagnostics differ: {r1.diags} vs {r2.diags}'
+                                elif named_log(h, r1.log) != named_log(h2, r2.log): diff = f'callback sequence differs: {named_log(h, r1.log)} vs {named_log(h2, r2.log)}'
+                            if diff:
+                                ok, m = solver.check()
+                                wit = [m.eval(t, model_completion=True).as_long() for t in tvars]
+                                scr = ''.join('1' if z3.is_true(m.eval(z3.Bool(f'nd{k}'), model_completion=True)) else '0' for k in range(max(r1.nd, r2.nd)))
+                                v = Violation('C15', 'order-dependent', g, r1, f'with declaration order {perm}: {diff}', witness=wit, script=scr)
+                                o1 = harness.run_native(h, [(entry, [h.tokens[k] for k in wit], scr)])[0]
+                                o2 = harness.run_native(h2, [(entry, [h.tokens[k] for k in wit], scr)])[0]
+                                def nat_named(hh, o):
+                                    if o.get('panic') or o.get('walk') == 'PANIC': return 'PANIC'
+                                    def nw(w): return ('T', w[1], w[2]) if w[0] == 'T' else ('R', hh.rule_enum[w[1]], [nw(k) for k in w[4]])
+                                    return (nw(o['walk']), o['diags'], named_log(hh, [tuple(e) for e in o['log']]))
+                                v.confirmed = nat_named(h, o1) != nat_named(h2, o2)
+                                v.native = {'order_a': str(nat_named(h, o1))[:600], 'order_b': str(nat_named(h2, o2))[:600]}
+                                out['violations'].append(v.asdict())
+                            solver.reset_pc()
+                    out['prop_queries'] += solver.queries; out['prop_time'] += solver.time
+                    if results and len(out['samples']) < 1:
+                        r = results[len(results) // 2]
+                        out['samples'].append(dict(grammar=g.name, permutation=perm, entry=entry, n=n, witness=[h.tokens[k] for k in r.witness]))
+            cnt, mism = run.validate_native(h2, cached_explore(pp2, 'parse', min(N, 3), out['stats'])[0], sample=opts.get('validate', 15), seed=opts.get('seed', 0))
+            out['validated'] += cnt
+            for r, d in mism: out['mismatches'].append(f'{g.name} perm {perm} {[h.tokens[k] for k in r.witness]}: {d[:300]}')
+    except Unsupported as e:
+        out['inconclusive'].append(f'{g.name}: {e}')
+    except Exception as e:
+        out['inconclusive'].append(f'{g.name}: internal error {e!r} {traceback.format_exc()[-600:]}')
+    out['wall'] = time.time() - t0
+    out['stats']['fns'] = sorted(out['stats']['fns']); out['stats']['models'] = sorted(out['stats']['models'])
+    return out
